@@ -1,0 +1,29 @@
+//go:build verif
+
+// Contracts for package logger, read by /verif/bin/gvc (contract-based deductive verification).
+// This file contains comments only; it is compiled only under the build tag "verif".
+package logger
+
+// Printing writes to the configured streams only (trusted frames: the colour functions are dynamic calls).
+//@ func (*Logger).Outf
+//@   trusted
+//@   modifies bytes.*, github.com/go-task/task/v3/internal/output.*
+//@ func (*Logger).FOutf
+//@   trusted
+//@   modifies bytes.*, github.com/go-task/task/v3/internal/output.*
+//@ func (*Logger).VerboseOutf
+//@   trusted
+//@   modifies bytes.*, github.com/go-task/task/v3/internal/output.*
+//@ func (*Logger).Errf
+//@   trusted
+//@   modifies bytes.*, github.com/go-task/task/v3/internal/output.*
+//@ func (*Logger).VerboseErrf
+//@   trusted
+//@   modifies bytes.*, github.com/go-task/task/v3/internal/output.*
+//@ func (*Logger).Warnf
+//@   trusted
+//@   modifies bytes.*, github.com/go-task/task/v3/internal/output.*
+//@ func (*Logger).Prompt
+//@   trusted
+//@   blocks
+//@   modifies bytes.*, github.com/go-task/task/v3/internal/output.*, bufio.*
